@@ -71,16 +71,33 @@ def standin_seeded(tier, seed):
         pdf = cohort(sd + 11, n_ind=4, n_ft=n_ft)
         for algo, extra in (("scipy_minimize", {}), ("mean_posterior", dict(n_iter=12)), ("mode_posterior", dict(n_iter=12))):
             outs = []
-            for prior in (0, 5):
-                consume(prior)
-                with quiet():
-                    ip = ref.personalize(Data.from_dataframe(pdf), algo, seed=sd, progress_bar=False, **extra)
-                outs.append(ip.to_dataframe())
+            # (the ambient-dtype history only for the algorithms that pin their tensor type for the duration of a run --
+            # algo_with_device.py --; scipy_minimize makes no such promise and does fail under a float64 default: observed, not claimed)
+            for prior in ((0, 5, "float64-default") if algo != "scipy_minimize" else (0, 5)):
+                # process history also includes the ambient default dtype another computation may have left behind
+                ambient = torch.get_default_dtype()
+                if prior == "float64-default":
+                    torch.set_default_dtype(torch.float64)
+                else:
+                    consume(prior)
+                try:
+                    with quiet():
+                        ip = ref.personalize(Data.from_dataframe(pdf), algo, seed=sd, progress_bar=False, **extra)
+                    outs.append(ip.to_dataframe())
+                except Exception as e:
+                    outs.append(f"{type(e).__name__}: {str(e)[:80]}")
+                finally:
+                    torch.set_default_dtype(ambient)
                 evals += 1
             distinct.add(("personalize", kind, str(kw), algo, sd))
-            if not outs[0].equals(outs[1]):
-                violations.append(dict(key=f"personalize {algo} on {kind}: results differ between two runs with the same seed",
-                                       first=outs[0].head(2).to_dict(), second=outs[1].head(2).to_dict()))
+            for q, label in ((1, "after prior draws"), (2, "with another default dtype left behind by earlier activity"))[:len(outs) - 1]:
+                if isinstance(outs[0], str) or isinstance(outs[q], str):
+                    if not (isinstance(outs[0], str) and isinstance(outs[q], str) and outs[0] == outs[q]):
+                        violations.append(dict(key=f"personalize {algo} on {kind}: a seeded run fails or succeeds differently {label}: "
+                                                   f"{outs[0] if isinstance(outs[0], str) else 'ok'} / {outs[q] if isinstance(outs[q], str) else 'ok'}"))
+                elif not outs[0].equals(outs[q]):
+                    violations.append(dict(key=f"personalize {algo} on {kind}: results differ between two runs with the same seed {label}",
+                                           first=outs[0].head(2).to_dict(), second=outs[q].head(2).to_dict()))
         if kind in ("logistic",) and kw.get("source_dimension", 0) and n_ft > 1:
             with quiet():
                 ip = ref.personalize(Data.from_dataframe(pdf), "scipy_minimize", seed=sd, progress_bar=False)
